@@ -378,7 +378,19 @@ def check(prop, mod, tier, seed, replay, scratch, t0, lines):
                             found = cases2[v2[0]]
             except Exception:
                 pass
-        if found is not None:
+        impl_root = os.path.join(os.environ.get("VERIF_REPO", "/repo"), "signac") + os.sep
+        impl_raised = [h for h in harness_errors if impl_root in h[2]]
+        if found is None and impl_raised:
+            # the implementation itself raised, on an input for which the harness expects an answer (every exception
+            # the property allows is caught and recorded by the harness as an observation): that input is the replay
+            _, d0, tb0 = impl_raised[0]
+            path = write_replay(prop, {"property": prop, "input": d0, "seed": seed, "tier": tier,
+                                       "implementation_raised": tb0.strip().splitlines()[-1], "traceback": tb0[-3000:],
+                                       "why": "the implementation raised an exception where the property demands a result "
+                                              "(the exception passed through the tree under test; it never occurs on the repaired tree)",
+                                       "other_inputs_raising": len(impl_raised) - 1})
+            lines.append(f"VIOLATION property={prop} replay={path}")
+        elif found is not None:
             path = write_replay(prop, {"property": prop, "input": found.desc, "implementation_observation": found.obs,
                                        "coq_case": found.coq, "why": "found by neighbour search after a correspondence mismatch",
                                        "seed": seed, "tier": tier})
